@@ -367,6 +367,11 @@ def native(seed=0, reduced=False):
     return bad, n
 
 
+def replay_scope(unit, obl):
+    """the native replay of this property searches per unit, not per obligation: run it once per unit"""
+    return "unit"
+
+
 def replay(unit, obl):
     import tdgl
     bad, n = native(0, reduced=False)
